@@ -53,7 +53,7 @@ theorem renderBranches_cons (c : RCtx) (t : CondT) (body : List Node) (rest : Li
 
 /-- **C10 (truthiness).** A value is truthy exactly when it is neither nil nor false — so 0, the
     empty string and empty collections are truthy. -/
-theorem truthy_iff (v : GoVal) :
+theorem test_truthy_iff (v : GoVal) :
     v.test = true ↔ (∀ h : v.unwrap = .nil, False) ∧ (∀ h : v.unwrap = .bool false, False) := by
   unfold GoVal.test
   split
